@@ -8,7 +8,7 @@ from __future__ import annotations
 from core import Case
 
 PID = "C09"
-LEAN_MODULES = ["KrroodVerif.Props.C09"]
+LEAN_MODULES = ["KrroodVerif.Props.C09", "KrroodVerif.Props.C09Lazy"]
 THEOREMS = [
     "KrroodVerif.Quant.C09_run_eq_spec",
     "KrroodVerif.Quant.C09_mk_wf",
@@ -19,6 +19,9 @@ THEOREMS = [
     "KrroodVerif.Quant.C09_value_blind",
     "KrroodVerif.Quant.C09_the_value_blind",
     "KrroodVerif.Quant.C09_history_independent",
+    "KrroodVerif.Quant.C09_consumed",
+    "KrroodVerif.Quant.C09_consumed_upper",
+    "KrroodVerif.Quant.C09_interleaving_independent",
 ]
 MODEL_FUNCTION = "Quant.run / Quant.assertSat / Quant.mkSingle / Quant.mkRange / Quant.theRun (Model/Quantifier.lean)"
 TRUSTED = [
@@ -120,6 +123,28 @@ def generate(rng, tier, n):
                 for h, tg in (("histg", ("generator-domain",)), ("histc", ("condition",)), ("histgc", ("generator-domain", "condition"))):
                     cases.append(Case(f"({h} {c} {v + extra} {ks})", ("hist", kind, "retry") + tg, "exhaustive"))
                     cases.append(Case(f"({h} {c} {v + extra} {ks2})", ("hist", kind, "retry") + tg, "exhaustive"))
+    # the(...) as an operand of an enclosing query; Symbol-typed list domains (other instances of the type alive elsewhere)
+    for k in range(min(N, 5) + 1):
+        cases.append(Case(f"(nthe {k})", ("the", "nested-operand"), "exhaustive"))
+        for extra in (0, 2):
+            cases.append(Case(f"(runs (none) {k} {extra})", ("run", "none", "symbol-domain"), "exhaustive"))
+            for kind in ("exactly", "atLeast", "atMost"):
+                for v in range(0, 3):
+                    cases.append(Case(f"(runs ({kind} {v}) {k} {extra})", ("run", kind, "symbol-domain"), "exhaustive"))
+    # elements taken from a lazily produced domain by a full evaluation (an upper bound stops the evaluation early)
+    for kind in ("exactly", "atLeast", "atMost", "range"):
+        for v in range(0, 4):
+            for k in range(0, 8):
+                c = f"(range {max(0, v - 1)} {v})" if kind == "range" else f"({kind} {v})"
+                cases.append(Case(f"(pulls {c} {k})", ("pulls", kind), "exhaustive"))
+    # interleaved evaluations of one query object (domain cached by an earlier evaluation of another query)
+    for _ in range(max(40, n // 2)):
+        kind = rng.choice(["exactly", "atLeast", "atMost", "range", "none"])
+        v = rng.randrange(0, 4)
+        c = "(none)" if kind == "none" else f"(range {v} {v + rng.randrange(0, 3)})" if kind == "range" else f"({kind} {v})"
+        nn = max(0, v + rng.randrange(-1, 3))
+        js = [rng.randrange(0, 3) for _ in range(rng.randrange(2, 2 * nn + 6))]
+        cases.append(Case(f"(histi {c} {nn} {' '.join(map(str, js))})", ("histi", kind), "random"))
     # histories: ONE query object evaluated several times, earlier iterators left suspended (kept alive)
     for _ in range(max(40, n // 2)):
         kind = rng.choice(["exactly", "atLeast", "atMost", "range"])
@@ -148,8 +173,13 @@ def nontrivial(case: Case, spec: str) -> bool:
     nums = [int(x) for x in re.findall(r"-?\d+", case.line)]
     if case.line.startswith("(run (none)"):
         return False
-    if case.line.startswith("(hist"):
+    if case.line.startswith("(hist") or case.line.startswith("(pulls") or case.line.startswith("(nthe"):
         return True
+    if case.line.startswith("(runs (none)"):
+        return False
+    if case.line.startswith("(runs"):
+        *bounds, n, _extra = nums
+        return any(abs(n - b) <= 2 for b in bounds)
     if case.line.startswith("(runf (none)"):
         return False
     if case.line.startswith("(runf"):
@@ -228,6 +258,28 @@ class _Item:
     def __init__(self, i): self.i = i
 
 
+class _Done:
+    """an evaluation that has ended (by StopIteration or by an error): every further next() is 'stop'"""
+    _done = True
+    def __iter__(self): return self
+    def __next__(self): raise StopIteration
+
+
+_SYMBOL_ITEM = []
+
+
+def _symbol_item_class():
+    if not _SYMBOL_ITEM:
+        from dataclasses import dataclass
+        from krrood.entity_query_language.predicate import Symbol
+
+        @dataclass(eq=False)
+        class C09SymbolItem(Symbol):
+            i: int
+        _SYMBOL_ITEM.append(C09SymbolItem)
+    return _SYMBOL_ITEM[0]
+
+
 class _BoolItem(_Item):
     """user objects that define their own truthiness: every even element is falsy"""
     __slots__ = ()
@@ -257,6 +309,66 @@ def _one(case: Case) -> str:
     from krrood.entity_query_language.quantify_entity import an, the
     s = _parse(case.line)
     try:
+        if s[0] == "nthe":
+            # the(...) used as an operand: the enclosing query evaluates it through its parent, not through The.evaluate()
+            n = int(s[1])
+            outer = [_Item(i) for i in range(3)]
+            inner = [_Item(i) for i in range(n)]
+            x = let(_Item, outer)
+            y = let(_Item, inner)
+            got = [r.i for r in an(entity(x, x.i == the(entity(y, y.i >= 0)).i)).evaluate()]
+            return f"value {got[0]}" if len(got) == 1 else f"rows {got}"
+        if s[0] == "runs":
+            c = _mk(s[1])
+            n, extra = int(s[2]), int(s[3])
+            cls = _symbol_item_class()
+            elsewhere = [cls(100 + i) for i in range(extra)]      # alive, NOT in the domain
+            x = let(cls, [cls(i) for i in range(n)])
+            q = an(entity(x), quantification=c) if c is not None else an(entity(x))
+            got = []
+            try:
+                for r in q.evaluate():
+                    got.append(r.i)
+                out = "ok"
+            except Exception as ex:  # noqa: BLE001
+                out = _exc_name(ex)
+            del elsewhere
+            return "[" + ",".join(map(str, got)) + "] " + out
+        if s[0] == "pulls":
+            c = _mk(s[1])
+            n = int(s[2])
+            pulled = [0]
+            def gen():
+                for i in range(n):
+                    pulled[0] += 1
+                    yield _Item(i)
+            x = let(_Item, gen())
+            q = an(entity(x, x.i >= 0), quantification=c) if c is not None else an(entity(x, x.i >= 0))
+            try:
+                for _r in q.evaluate():
+                    pass
+            except Exception:  # noqa: BLE001
+                pass
+            return str(pulled[0])
+        if s[0] == "histi":
+            c = _mk(s[1])
+            n = int(s[2])
+            x = let(_Item, [_Item(i) for i in range(n)])
+            list(an(entity(x, x.i >= 0)).evaluate())        # another query over x: the domain is now fully cached
+            q = an(entity(x, x.i >= 0), quantification=c) if c is not None else an(entity(x, x.i >= 0))
+            its, outs = {}, []
+            for j in (int(t) for t in s[3:]):
+                if j not in its:
+                    its[j] = iter(q.evaluate())
+                try:
+                    outs.append(f"{j}:{next(its[j]).i}")
+                except StopIteration:
+                    outs.append(f"{j}:" + ("stop" if its[j] is None or getattr(its[j], "_done", False) else "ok"))
+                    its[j] = _Done()
+                except Exception as ex:  # noqa: BLE001
+                    outs.append(f"{j}:" + _exc_name(ex))
+                    its[j] = _Done()
+            return " ".join(outs)
         if s[0] == "thef":
             e, proj = _falsy_query(s[2], int(s[1]))
             return f"value {proj(the(e).evaluate())}"
